@@ -908,6 +908,7 @@ def ml_gmm_m_step(
 
     # Threshold the low n to prevent divide by zero
     thresholded_n = np.clip(statistics.n, mean_var_update_threshold, None)
+    not_enough_data = statistics.n[:, None] < mean_var_update_threshold
 
     # Update weights if requested
     # (Equation 9.26 of Bishop, "Pattern recognition and machine learning", 2006)
@@ -921,8 +922,14 @@ def ml_gmm_m_step(
     # (Equation 9.24 of Bishop, "Pattern recognition and machine learning", 2006)
     if update_means:
         logger.debug("Update means.")
-        # Using n with the applied threshold
-        machine.means = statistics.sum_px / thresholded_n[:, None]
+        # Using n with the applied threshold; a Gaussian without enough data
+        # keeps its mean (a partial sum divided by the threshold would pull it
+        # towards the origin of the feature space)
+        machine.means = np.where(
+            not_enough_data,
+            machine.means,
+            statistics.sum_px / thresholded_n[:, None],
+        )
 
     # Update variances if requested
     # (Equation 9.25 of Bishop, "Pattern recognition and machine learning", 2006)
@@ -934,10 +941,12 @@ def ml_gmm_m_step(
         # Weighted variance around the machine's means: these are the ML
         # means only if they were updated above (update_means=True).
         ml_means = statistics.sum_px / thresholded_n[:, None]
-        machine.variances = (
+        machine.variances = np.where(
+            not_enough_data,
+            machine.variances,
             statistics.sum_pxx / thresholded_n[:, None]
             - np.power(ml_means, 2)
-            + np.power(ml_means - machine.means, 2)
+            + np.power(ml_means - machine.means, 2),
         )
 
 
